@@ -53,7 +53,7 @@ def _run(tape, clock):
     preempt = tape.choice([0.0, 0.02, 0.1, 0.4])
     big = tape.draw(4) == 3
     spec = R.gen_service(tape, run, max_steps=30 if big else 10, max_inputs=4, max_outputs=3, threads=threaded,
-                         value_depth=3 if tape.draw(3) == 2 else 2)
+                         value_depth=3 if tape.draw(3) == 2 else 2, arg_mutating_inputs=True)
     R.fill_outcomes(tape, run, spec)
     if tape.draw(4) == 3:
         spec.op.params = {'copy_data_on_intercepion': True}
